@@ -55,8 +55,8 @@ impl<'a> Field {
         fields
             .iter()
             .enumerate()
-            .map(move |(i, field)| {
-                let mut field = Field::from_syn(i, field, bark)?;
+            .map(move |(i, syn_field)| {
+                let mut field = Field::from_syn(i, syn_field, bark)?;
 
                 if field.attrs.stop_repeat {
                     ctx.field_attrs_to_repeat = None;
@@ -70,6 +70,7 @@ impl<'a> Field {
                     ctx.field_attrs_to_repeat = Some((field.attrs.clone(), repeat_attr.permeate));
                 } else if let Some(attrs_to_repeat) = &ctx.field_attrs_to_repeat {
                     field.attrs.merge(attrs_to_repeat.0.clone());
+                    field.attrs.retarget_as_type(&syn_field.ty);
                 }
 
                 Ok(field)
